@@ -33,11 +33,15 @@ MANIFEST = {
 
 
 def enumerators(header, enum_name):
-    p = subprocess.run(["gcc", "-E", "-P", "-I", core.REPO, os.path.join(core.REPO, header)],
-                       stdout=subprocess.PIPE, stderr=subprocess.DEVNULL, text=True)
+    # same include path as the goto-cc builds (incl. the shadow dir for the cmake-generated config.h / rtrlib.h of an
+    # unconfigured tree); a header that cannot be preprocessed or an enum that is not found is a driver error, never an
+    # empty list (an empty list would turn "every other value yields NULL" into a false alarm)
+    inc = core.include_flags(os.path.join(core.WORK_ROOT, "gen"))
+    p = subprocess.run(["gcc", "-E", "-P"] + inc + [os.path.join(core.REPO, header)],
+                       stdout=subprocess.PIPE, stderr=subprocess.PIPE, text=True)
     m = re.search(r"enum\s+%s\s*\{([^}]*)\}" % enum_name, p.stdout)
-    if not m:
-        return []
+    if p.returncode != 0 or not m:
+        raise RuntimeError("C20: cannot read enum %s from %s: %s" % (enum_name, header, p.stderr[-400:]))
     out = []
     for part in m.group(1).split(","):
         part = part.strip()
